@@ -3,6 +3,7 @@ import Hgxv.Model.C04
 import Hgxv.Model.C04Spec
 import Hgxv.Model.C04Dump
 import Hgxv.Model.C04Ext
+import Hgxv.Model.C04Raw
 /-! Line protocol for C04.  State: one concrete `Store` and, next to it, the abstract `Spec` driven by the same
 operations.  Every answer is computed from BOTH; listings are rendered as `|`-separated items (fields `;`,
 numbers `,`, empty field `_`, empty listing `-`) and sorted as strings.  If the two renderings differ the
@@ -25,7 +26,11 @@ serialisation dict) and `overlapin <raw> <order>` (the overlap summed in the ord
 Extension round:  `ctor <w> <hmeta> <nodedict|N> <form> <raws> <Ls> <ws|N> <mds|N>` = the constructor (`construct` /
 `Spec.construct`; form `abs` = no edge_list, `emb` = (edge, layer) pairs, `embbad<i>` = pairs but element i is something else,
 `sep` = edge_list + edge_layer); `rej` leaves the state.  Queries `hashview` (ORDERED rendering of
-`expose_attributes_for_hashing`), `edgetable` / `adjtable` (the raw id tables; the map has no ids: store only). -/
+`expose_attributes_for_hashing`), `edgetable` / `adjtable` (the raw id tables; the map has no ids: store only).
+Second extension round:  `rawecho el|adj|lay|pop` = `rawStep` with `set_edge_list` / `set_adj_dict` / `set_existing_layers` /
+`populate_from_dict` fed with the matching getter's result (answers `ok` iff `RawOp.echo` holds, as it must); `setlayers <extra>` =
+`setExistingLayers` with the layers in use followed by the names of `extra` not among them (the `Spec` registry is set alike);
+query `hashviewt <classes>` = `hashViewT (tyOf classes)` (class of the name of layer `i` at position `i`), `rej` = raises. -/
 open Wire C04
 
 structure St where
@@ -178,6 +183,10 @@ def answer (st : St) : List String → Option (String × String)
     some (toString (overlapIn st.s o r), toString (st.sp.overlap r))
   | ["dumpkeys"] => some (items (dumpKeys st.s), items (dumpKeys st.s))
   | ["hashview"] => some (optS fHash (hashView st.s), fHash st.sp.hashView)
+  | ["hashviewt", cls] => do
+    let c ← nats? cls
+    some (optS fHash (hashViewT (tyOf c) st.s),
+          if layerClash (tyOf c) st.sp.records then "rej" else fHash st.sp.hashView)
   | ["edgetable"] =>
     -- ids are rendered by their rank among the live ids (the harness registers a layer in the model by a throw-away record)
     let live := (edgeTable st.s).map (·.2)
@@ -212,6 +221,22 @@ def step (st : St) (toks : List String) : St × String :=
     match loadDump (expose st.s) with
     | some s' => ({ st with s := s' }, "ok")
     | none => (st, "rej")
+  | ["rawecho", kind] =>
+    let op? : Option RawOp :=
+      if kind = "el" then some (.setEdgeList (edgeTable st.s))
+      else if kind = "adj" then some (.setAdjDict (adjTable st.s))
+      else if kind = "lay" then some (.setExistingLayers (getExistingLayers st.s))
+      else if kind = "pop" then some (.populate (expose st.s))
+      else none
+    match op? with
+    | none => (st, "bad-op")
+    | some op => ({ st with s := rawStep st.s op }, if op.echo st.s then "ok" else "NOT-ECHO")
+  | ["setlayers", extra] =>
+    match nats? extra with
+    | none => (st, "bad-op")
+    | some ex =>
+      let ls := (((records st.s).map (·.2)) ++ ex).foldl addLayer []
+      ({ s := rawStep st.s (.setExistingLayers ls), sp := { st.sp with layers := ls } }, "ok")
   | "q" :: q =>
     match answer st q with
     | some (a, b) => (st, both a b)
